@@ -43,7 +43,7 @@ impl Prop for C01 {
         modea::shrink_mux(case)
     }
     fn rule() -> String {
-        "seeded muxing histories (swarm: 1-6 tracks of 5 media kinds, size/duration/offset/sync/interleaving laws, rejected calls, transparent I/O chunking and EINTR) run on the real Mp4Writer over the simulated disk, read back through the real Mp4Reader and compared with the reference model; distinct_nontrivial = number of distinct table-shape signatures of the outputs (kinds, stsz mode, log2 #stts runs, ctts absent/late/from-start, stss absent/empty/partial/all, log2 #stsc runs, log2 max samples per chunk, stco|co64, header versions)".into()
+        "seeded muxing histories (swarm: 1-6 tracks of 5 media kinds, size/duration/offset/sync/interleaving laws, rejected calls, transparent I/O chunking and EINTR; 1 in 1500 a fat-chunk history: one open chunk of 5-40 MB while other tracks reach the sink; 1 configuration in 8 built through the library's From<...Config> conversions) run on the real Mp4Writer over the simulated disk, read back through the real Mp4Reader and compared with the reference model; distinct_nontrivial = number of distinct table-shape signatures of the outputs (kinds, stsz mode, log2 #stts runs, ctts absent/late/from-start, stss absent/empty/partial/all, log2 #stsc runs, log2 max samples per chunk, stco|co64, header versions)".into()
     }
     fn assumptions() -> Vec<String> {
         vec![
@@ -67,6 +67,7 @@ impl Prop for C01 {
             "probe.zero_sample_track",
             "probe.transparent_io_faults",
             "probe.write_end_retried_after_failure",
+            "probe.fat_chunk_history",
         ]
     }
 }
